@@ -1237,3 +1237,35 @@ def run(code: bytes, cache: dict, cfg: Config):
     except RecursionError:
         raise Unspecified('model recursion limit')
     return 'ok', vm.stack, vm.cache, vm
+
+
+def run_auth(scripts, cache: dict, cfg: Config):
+    """Model of run_auth_scripts as its docstring states it: the scripts run
+    in order on ONE stack and ONE cache, function definitions and the call
+    budget carry over, every script runs to its own end or its own RETURN, and
+    the verdict is "nothing raised and the stack is exactly [ff]".
+    -> True | False; raises Unspecified where the documents do not decide."""
+    m = VM(cfg, cache)
+    defs: dict = {}
+    try:
+        for code in scripts:
+            f = Frame(bytes(code), defs, {**DEFAULT_FLAGS, **cfg.flags}, 0)
+            try:
+                m.run(f, 0)
+            except _Return:
+                pass
+            defs = f.defs
+            if m.return_in_loop:
+                raise Unspecified('RETURN inside a LOOP body')
+    except VMError:
+        if m.return_in_loop:
+            raise Unspecified('RETURN inside a LOOP body')
+        return False
+    except RecursionError:
+        raise Unspecified('model recursion limit')
+    if len(m.stack) != 1:
+        return False
+    top = m.stack[0]
+    if is_opaque(top):
+        raise Unspecified('opaque final item')
+    return bytes(top) == b'\xff'
